@@ -64,7 +64,7 @@ func init() {
 			return VBV{n}, pc
 		})
 	regPrefix("reflect.Type.", "reflect.Type methods: opaque results, no effect on modelled state; reflect's own panics are not modelled", pureOpaque)
-	regPrefix("(reflect.Value).", "reflect.Value methods: opaque results, no effect on modelled state; reflect's own panics are not modelled", pureOpaque)
+	regPrefix("(reflect.Value).", "reflect.Value methods: opaque results, no effect on modelled state; of reflect's own panics only the call on the zero Value is modelled (obligation reflect-zero, in functions whose contract says reflect-validity: valid(ValueOf(x)) iff x != nil, valid(v.Elem()) iff !v.IsNil(), Kind() != Invalid iff valid, other Value results valid)", pureOpaque)
 	regPrefix("(reflect.StructTag).", "reflect.StructTag methods: opaque results", pureOpaque)
 	regPrefix("reflect.", "reflect functions: opaque results, no effect on modelled state", pureOpaque)
 }
